@@ -189,6 +189,51 @@ TEMPLATES = [
 ]
 
 
+# definitions of instances of constants that are already declared (overloaded: less, plus, zero of theory nat),
+# offered in theory list; the right side mentions the constant at the same, a nested, a renamed or a disjoint type
+OVERLOADED = [
+    ("less", "'a list => 'a list => bool", "xs < ys <--> ~([xs] < [ys])", 'circular: nested instance, same variable name'),
+    ("less", "'a list => 'a list => bool", "xs < ys <--> length xs < length ys", 'good: other instance (nat)'),
+    ("less", "'a list => 'a list => bool", "xs < ys <--> ~(xs < ys)", 'circular: same type'),
+    ("less", "'a list => 'a list => bool", "xs < ys <--> [nth xs 0] < [nth ys 0]", 'circular: same type'),
+    ("less", "'a list => 'a list => bool", "xs < ys <--> nth xs 0 = nth ys 0", 'good: no occurrence'),
+    ("less", "'a list => 'a list => bool", "xs < ys <--> nth xs 0 < nth ys 0", 'circular: occurrence at the bare type variable'),
+    ("less", "('a => 'b list) => ('a => 'b list) => bool", "f < g <--> (%x::'a. [f x]) < (%x. [g x])", 'circular: nested instance under a function type'),
+    ("less", "('a => 'a list) list => ('a => 'a list) list => bool", "xs < ys <--> [xs] < [ys]", 'circular: nested instance, two positions'),
+    ("less", "('a => 'a list) => ('a => 'a list) => bool", "f < g <--> (%x::'a. [f x]) < (%x. [g x])", 'good: occurs check separates the types'),
+    ("less", "'a list list => 'a list list => bool", "xs < ys <--> nth xs 0 < nth ys 0", 'circular: occurrence at a more general type'),
+    ("less", "nat list => nat list => bool", "xs < ys <--> nth xs 0 < nth ys 0", 'good: ground, disjoint'),
+    ("less", "nat list => nat list => bool", "xs < ys <--> [xs] < [ys]", 'good: ground, disjoint (nested)'),
+    ("plus", "'a list => 'a list => 'a list", "xs + ys = xs @ ys", 'good: no occurrence'),
+    ("plus", "'a list => 'a list => 'a list", "xs + ys = nth ([xs] + [ys]) 0", 'circular: nested instance, same variable name'),
+    ("plus", "'a list => 'a list => 'a list", "xs + ys = [nth xs 0 + nth ys 0]", 'circular: occurrence at the bare type variable'),
+    ("plus", "nat list => nat list => nat list", "xs + ys = [nth xs 0 + nth ys 0]", 'good: ground, disjoint'),
+    ("zero", "'a list", "(0::'a list) = []", 'good: no occurrence'),
+    ("zero", "'a list", "(0::'a list) = nth (0::'a list list) 0", 'circular: nested instance, same variable name'),
+    ("zero", "'a list", "(0::'a list) = [(0::'a)]", 'circular: occurrence at the bare type variable'),
+    ("zero", "nat list", "(0::nat list) = [(0::nat)]", 'good: ground, disjoint'),
+    ("zero", "'a list list", "(0::'a list list) = [(0::'a list)]", 'circular: occurrence at a more general type'),
+]
+
+
+def gen_overloaded(r, n):
+    """less at T => T => bool for a random T, its right side using less at a wrapped type F(T)."""
+    def ty(d):
+        c = r.random()
+        if d == 0 or c < 0.35:
+            return r.choice(["'a", "'a", "'b", "nat"])
+        if c < 0.75:
+            return "(%s) list" % ty(d - 1)
+        return "(%s => %s)" % (ty(d - 1), ty(d - 1))
+    res = []
+    for _ in range(n):
+        T = ty(r.choice([1, 2, 2]))
+        w = r.choice(['[xs] < [ys]', '[[xs]] < [[ys]]', "(%z::nat. xs) < (%z. ys)", "(%z::'a. xs) < (%z. ys)", "(%z::'b list. [xs]) < (%z. [ys])", 'xs < ys'])
+        prop = 'xs < ys <--> ' + (w if r.random() < 0.5 else '~(%s)' % w)
+        res.append(('less', '%s => %s => bool' % (T, T), prop, 'random: wrapped instance'))
+    return res
+
+
 def gen_definitions(run, r, g, n):
     res = []
     for i in range(n):
@@ -391,6 +436,19 @@ def run_check(tier, seed):
     context.set_context('logic_base')
     for d in gen_definitions(run, r, g, 150 if tier == 'quick' else 1500):
         judge_definition(run, d, 'generated', exprs, meta)
+
+    # ---- instances of overloaded constants over theory list
+    try:
+        context.set_context('list')
+        n_before = len(meta)
+        for cname, ty, prop, comment in OVERLOADED + gen_overloaded(r, 40 if tier == 'quick' else 600):
+            judge_definition(run, dict(ty='def', name=cname, type=ty, prop=prop), 'generated overloaded instance (%s)' % comment, exprs, meta)
+            run.stat('gen:overloaded:' + comment.split(':')[0])
+        run.stat('overloaded_judged:%d' % (len(meta) - n_before))
+    except RecursionError:
+        raise
+    except Exception as e:
+        run.stat('overloaded_family_failed:' + type(e).__name__)
 
     # model verdicts: vm_compute prints a pair (code, types); evaluate code and the self-occurrence list separately
     code_exprs = ['(fst %s)' % e for e in exprs]
